@@ -106,7 +106,7 @@ func runC01(cfg *config) *Report {
 	var files []*icl.File
 	var notes []string
 	for i := 0; i < n; i++ {
-		o := genOpts{maxCL: 3, maxBundles: 3, maxItems: 3, mutateP: 60}
+		o := genOpts{maxCL: 3, maxBundles: 3, maxItems: 3, mutateP: 60, emptyCL: true}
 		if i%5 == 0 {
 			o.mutateP = 100
 		}
